@@ -30,11 +30,15 @@ Judge_resolve(c) ==
             plain == Decode(W.t, c.bytes, W.st.names)
         IN IF x.st = "unspec" THEN << Cl("C08.value", "unspec") >>
            ELSE IF x.st = "raise" THEN
-                << Tri("C08.reject.schemaless", IsResErr(c.sl)), Tri("C08.reject.container", IsResErr(c.file)) >>
+                << Tri("C08.reject.schemaless", IsResErr(c.sl)), Tri("C08.reject.container", IsResErr(c.file)),
+                   IF "blocks" \in DOMAIN c THEN Tri("C08.reject.block_reader", IsResErr(c.blocks)) ELSE Cl("C08.reject.block_reader", "skip") >>
            ELSE IF x.st # "ok" THEN << Cl("S.resolve", "fail") >>
            ELSE << Tri("C08.value.schemaless", c.sl.ok /\ VEq(c.sl.v, x.v) /\ c.sl.pos = Len(c.bytes)),
                    Tri("C08.value.container", c.file.ok /\ Len(c.file.recs) = 1 /\ VEq(c.file.recs[1], x.v)),
                    \* with a reader schema equal to the writer schema the result is what reading without one returns
+                   \* the block reader resolves like the record reader
+                   IF "blocks" \notin DOMAIN c THEN Cl("C08.value.block_reader", "skip")
+                   ELSE Tri("C08.value.block_reader", c.blocks.ok /\ Len(c.blocks.recs) = 1 /\ VEq(c.blocks.recs[1], x.v)),
                    \* the reporting options do not change what is resolved: same value once the (name, value) pairs are taken away
                    IF "named" \notin DOMAIN c THEN Cl("C08.value.named_options", "skip")
                    ELSE Tri("C08.value.named_options", /\ c.named.ok /\ VEq(StripPairs(c.named.v), x.v)
